@@ -182,6 +182,14 @@ func findInlineNode(file *ast.File, comment *ast.Comment, fset *token.FileSet) (
 		return file.Decls[i].End() > commentPos
 	})
 
+	// A comment that trails a declaration ending on the same line
+	// (var x T // @ignore CODE) lies after that declaration: it is inline for that line
+	if idx > 0 && fset.Position(file.Decls[idx-1].End()).Line == commentLine {
+		if fileContent := fset.File(commentPos); fileContent != nil {
+			return fileContent.LineStart(commentLine), comment.End(), true
+		}
+	}
+
 	// If no declaration found, not inline
 	if idx >= len(file.Decls) {
 		return 0, 0, false
